@@ -6,6 +6,7 @@ no demonstration test), run the pinned suite of every module the patch touches (
 BASELINE.json stable_pass; tests that did not pass are re-run alone up to twice (timing-sensitive tests under load).
 Result: /tmp/mut/<name>.suite.json; the worktree is removed."""
 import json, os, subprocess, sys, shutil, re
+SEED_ROOT = __import__('os').environ.get('SEED_ROOT', '/tmp/seed'); MUT_ROOT = __import__('os').environ.get('MUT_ROOT', '/tmp/mut')
 base = json.load(open('/root/.vp/BASELINE.json'))
 want = set(base['stable_pass'])
 env = {k: v for k, v in os.environ.items() if k not in ('GOTOOLCHAIN', 'GOPROXY', 'GOSUMDB')}
@@ -35,8 +36,8 @@ def run_suite(wt, m, run=None, pkgs='./...'):
     p.wait()
     return st
 for name in sys.argv[1:]:
-    src = f'/tmp/seed/{name}'
-    wt = f'/tmp/mut/suite-{name}'
+    src = f'{SEED_ROOT}/{name}'
+    wt = f'{MUT_ROOT}/suite-{name}'
     sh(f'git -C /repo worktree remove --force {wt}'); shutil.rmtree(wt, ignore_errors=True)
     rc, out = sh(f'git -C /repo worktree add -q {wt} HEAD'); assert rc == 0, out
     res = {'seed': name, 'head': sh('git -C /repo rev-parse --short HEAD')[1].strip()}
@@ -76,6 +77,6 @@ for name in sys.argv[1:]:
             res.setdefault('suite', {})[m] = {'stable_pass_considered': len(considered), 'observed': len(st), 'not_passing': bad}
             bad_all += bad
         res['suite_passes'] = not bad_all
-    json.dump(res, open(f'/tmp/mut/{name}.suite.json', 'w'), indent=1)
+    json.dump(res, open(f'{MUT_ROOT}/{name}.suite.json', 'w'), indent=1)
     print(name, 'applies', res.get('applies'), 'builds', res.get('builds'), 'modules', res.get('modules'), 'suite_passes', res.get('suite_passes'), 'retried', len(res.get('retried', [])), flush=True)
     sh(f'git -C /repo worktree remove --force {wt}'); shutil.rmtree(wt, ignore_errors=True)
